@@ -335,7 +335,106 @@ def j_c05(case, resps):
     return out
 
 
-JUDGES = {"c01": j_c01, "c02": j_c02, "c03a": j_c03_explog, "c03b": j_c03_logexp2,
+def j_c07(case, resps):
+    """exact Lie-algebra identities on integer-valued inputs (rational arithmetic, no tolerance)"""
+    from fractions import Fraction as F
+    grp = case["group"]
+    g = REG[grp]
+    n, m = g.dof, g.alg
+    a, b = case["a"], case["b"]
+    out = []
+    it = iter(zip(case["reqs"], resps))
+
+    def nxt():
+        return next(it)
+
+    def mat(vals, r, c):
+        return [[F(vals[i * c + j]) for j in range(c)] for i in range(r)]
+
+    def mul(A, B):
+        return [[sum(A[i][k] * B[k][j] for k in range(len(B))) for j in range(len(B[0]))] for i in range(len(A))]
+
+    def sub(A, B):
+        return [[x - y for x, y in zip(ra, rb)] for ra, rb in zip(A, B)]
+
+    def tr(A):
+        return [list(r) for r in zip(*A)]
+
+    def bad(op, output, line, what):
+        out.append(V("C07", grp, op, output, case["tags"], line, what, float("inf"), 0))
+
+    # generators, in and out of range
+    gens = {}
+    for i in range(-3, n + 4):
+        line, r = nxt()
+        v, e = parse(r)
+        if 0 <= i < n:
+            if v is None:
+                bad("generator", "status", line, "Generator(%d) raised: %s" % (i, r[:40]))
+                return out
+            G = mat(v, m, m)
+            ref = g.hat([mpf(1) if k == i else mpf(0) for k in range(n)])
+            refm = [[F(int(ref[x, y])) for y in range(m)] for x in range(m)]
+            if G != refm:
+                bad("generator", "value", line, "Generator(%d) is not the documented basis matrix" % i)
+            gens[i] = G
+        else:
+            if r.strip() != "err invalid_argument":
+                bad("generator", "status", line, "Generator(%d) out of range did not raise invalid_argument: %s" % (i, r[:40]))
+    if len(gens) != n:
+        return out
+    vals = {}
+    for nm in ("hat_a", "hat_b", "bracket", "inner", "sqw", "W", "vee"):
+        line, r = nxt()
+        v, e = parse(r)
+        if v is None or not fin(v):
+            bad(nm, "status", line, "no finite result: %s" % r[:40])
+            return out
+        vals[nm] = (v, line)
+    Ha, Hb = mat(vals["hat_a"][0], m, m), mat(vals["hat_b"][0], m, m)
+    lin = [[sum(F(a[i]) * gens[i][x][y] for i in range(n)) for y in range(m)] for x in range(m)]
+    if Ha != lin:
+        bad("hat", "linear", vals["hat_a"][1], "hat(a) != sum a_i Generator(i)")
+    if [F(x) for x in vals["vee"][0]] != [F(x) for x in a]:
+        bad("vee", "value", vals["vee"][1], "Vee(hat(a)) != a")
+    # bracket
+    c = vals["bracket"][0]
+    Hc = [[sum(F(c[i]) * gens[i][x][y] for i in range(n)) for y in range(m)] for x in range(m)]
+    if Hc != sub(mul(Ha, Hb), mul(Hb, Ha)):
+        bad("bracket", "value", vals["bracket"][1], "hat(Bracket(a,b)) != [hat a, hat b]")
+    # inner = Frobenius product = a^T W b ; W symmetric positive definite
+    fro = sum(x * y for ra, rb in zip(Ha, Hb) for x, y in zip(ra, rb))
+    W = mat(vals["W"][0], n, n)
+    awb = sum(F(a[i]) * W[i][j] * F(b[j]) for i in range(n) for j in range(n))
+    if F(vals["inner"][0][0]) != fro or awb != fro:
+        bad("inner", "value", vals["inner"][1], "inner(a,b) != Frobenius <hat a, hat b> (= %s, got %r, a^T W b = %s)" % (fro, vals["inner"][0][0], awb))
+    if W != tr(W):
+        bad("innerWeights", "symmetry", vals["W"][1], "InnerWeights not symmetric")
+    # positive definite: Gram matrix of linearly independent generators; check leading minors
+    def det(A):
+        A = [r[:] for r in A]
+        d = F(1)
+        for i in range(len(A)):
+            p = next((k for k in range(i, len(A)) if A[k][i] != 0), None)
+            if p is None:
+                return F(0)
+            if p != i:
+                A[i], A[p] = A[p], A[i]
+                d = -d
+            d *= A[i][i]
+            for k in range(i + 1, len(A)):
+                f = A[k][i] / A[i][i]
+                A[k] = [x - f * y for x, y in zip(A[k], A[i])]
+        return d
+    if any(det([r[:k] for r in W[:k]]) <= 0 for k in range(1, n + 1)):
+        bad("innerWeights", "posdef", vals["W"][1], "InnerWeights not positive definite")
+    froa = sum(x * x for ra in Ha for x in ra)
+    if F(vals["sqw"][0][0]) != froa:
+        bad("sqwnorm", "value", vals["sqw"][1], "squaredWeightedNorm != <hat a, hat a>")
+    return out
+
+
+JUDGES = {"c07": j_c07, "c01": j_c01, "c02": j_c02, "c03a": j_c03_explog, "c03b": j_c03_logexp2,
           "c05": j_c05, "c06": j_c06, "c06adj": j_c06_adj}
 
 
@@ -392,6 +491,21 @@ def cases(prop, r, group, n, dbg=True):
             else:
                 X, tx = gen.element(r, group, norm="exact", lin_only=["zero", "tiny", "unit", "large"])
                 cs.append(dict(prop=prop, group=group, kind="c06adj", reqs=[gen.req(dbg, "o", group, "adj", 0, X)], tags=tx, X=X))
+        elif prop == "C07":
+            n = G["dof"]
+            mag = r.choice([1, 3, 40, 1000])
+            a = [float(r.randint(-mag, mag)) for _ in range(n)]
+            b = [float(r.randint(-mag, mag)) for _ in range(n)]
+            if r.random() < 0.1:
+                a = [0.0] * n
+            reqs = [gen.req(dbg, "o", group, "generator", 0, [], [i]) for i in range(-3, n + 4)]
+            reqs += [gen.req(dbg, "o", group, "hat", 0, a), gen.req(dbg, "o", group, "hat", 0, b),
+                     gen.req(dbg, "o", group, "bracket", 0, a + b), gen.req(dbg, "o", group, "inner", 0, a + b),
+                     gen.req(dbg, "o", group, "sqwnorm", 0, a), gen.req(dbg, "o", group, "innerWeights", 0, [])]
+            gg = REG[group]
+            Hh = gg.hat([mpf(x) for x in a])
+            reqs.append(gen.req(dbg, "o", group, "vee", 0, [float(Hh[i, j]) for i in range(gg.alg) for j in range(gg.alg)]))
+            cs.append(dict(prop=prop, group=group, kind="c07", reqs=reqs, tags=["int:%d" % mag], a=a, b=b))
         elif prop == "C05":
             op = r.choice(["exp", "log", "inverse", "compose", "between", "rplus", "lplus", "rminus", "lminus", "act"])
             ang = ["zero", "denormal", "tiny", "small", "below-switch", "above-switch", "cuberoot-switch",
